@@ -8,6 +8,7 @@ use std::time::Duration;
 mod simfs;
 mod suite_crash;
 mod suite_db;
+mod suite_fault;
 mod suite_filter;
 mod suite_log;
 mod suite_table;
@@ -44,6 +45,7 @@ fn main() {
         "vfn" => suite_version::run_vfn,
         "dbhist" => suite_db::run_dbhist,
         "crash" => suite_crash::run_crash,
+        "fault" => suite_fault::run_fault,
         _ => panic!("unknown suite {}", suite),
     };
     let timeout = Duration::from_secs(
